@@ -141,6 +141,17 @@ def handle (stream : String) (args : List String) : String :=
       let alert := if close = 1 then s!"{epoch}:{(t'.log.head?.map (·.seq)).getD 0}" else "-"
       if n = 0 then s!"{epoch}:- alert={alert}" else s!"{epoch}:{lo}-{hi}/{seqs.length} alert={alert}"
     | _ => "bad-args"
+  | "pub", [a] =>
+    -- `pub <point>,<E>,<S>`: a sender that runs a whole send() right after publication statement <point>
+    -- (1 = state, 2 = write_epoch, 3 = write_seq), the publisher's other steps around it in code order
+    match (fields a).map String.toNat? with
+    | [some point, some E, some S] =>
+      let target : PubStep := if point = 1 then .setState else if point = 2 then .storeEpoch else .storeSeq
+      let before := (pubOrder.takeWhile (· ≠ target)).length + 1
+      let acts : List PAct := List.replicate before .pub ++ [.snd 0, .snd 0, .snd 0] ++ List.replicate (3 - before) .pub
+      let s := PSys.run E S { rest := pubOrder } acts
+      if s.log.isEmpty then "rejected" else " ".intercalate (s.log.reverse.map fun p => s!"{p.1}.{p.2}")
+    | _ => "bad-args"
   | "dec", [hx] =>
     match unhex hx with
     | some bs => " ".intercalate (decAll (bs.length + 1) bs [])
